@@ -538,7 +538,7 @@ pub fn f_timeout(thorough: bool) -> Vec<Unit> {
     // BYODS relations computed in one stratum and read in a later one / in the same one
     for u in f_ds(false) {
         if u.sym.is_some() || u.tag.contains("ternary") { continue; }
-        if thorough || u.tag.contains("-clocked-readers-in-later") || u.tag.contains("-two-strata-readers-in-recursive") { out.push(u); }
+        if thorough || u.tag.starts_with("ds-eqrel-binary-clocked-readers-in-later") || u.tag.starts_with("ds-trrel-binary-two-strata-readers-in-recursive") || u.tag.starts_with("ds-trrel_uf-binary-clocked-readers-in-later") || u.tag.starts_with("ds-trrel-binary-clocked-readers-in-later") { out.push(u); }
     }
     for u in out.iter_mut() {
         u.variants.truncate(1);
@@ -903,6 +903,8 @@ pub fn f_macro(thorough: bool) -> Vec<Unit> {
         // 8: the local is determined by the first parameter: two invocations sharing it would force their arguments equal
         // (a condition must not be the last item: inside a disjunction `if e | ...` would parse `|` into the expression)
         MacroDef { name: "g".into(), params: vec![MacParam::Ident, MacParam::Ident], body: vec![atom(b, vec![v(P0), v(P1)]), atom(a, vec![v(l0)]), BodyItem::Cond(Cond::Eq(ev(l0), ev(P0))), atom(a, vec![v(l0)])], heads: vec![] },
+        // 9: a local bound by an `if let` attached to a clause
+        MacroDef { name: "f".into(), params: vec![MacParam::Ident], body: vec![catom(b, vec![v(P0), v(l0)], vec![Cond::IfLetHalf(l1, ev(l0))]), atom(a, vec![v(l1)])], heads: vec![] },
     ];
     let ctx = rule(vec![head(pp, vec![ev(0), ev(1)])], vec![atom(b, vec![v(0), v(1)])]);
     // call patterns (call-site variables 0,1,2,3)
@@ -927,6 +929,8 @@ pub fn f_macro(thorough: bool) -> Vec<Unit> {
         ("disj-of-calls-inside-macro", rule(vec![head(pp, vec![ev(0), ev(1)])], vec![call(7, vec![mi(0), mi(1)])])),
         ("disj-of-calls-inside-macro-then-call", rule(vec![head(pp, vec![ev(0), ev(2)])], vec![call(7, vec![mi(0), mi(1)]), call(8, vec![mi(1), mi(2)])])),
     ];
+    rules.push(("attached-iflet-local-twice", rule(vec![head(q, vec![ev(0)])], vec![call(9, vec![mi(0)]), call(9, vec![mi(0)])])));
+    rules.push(("attached-iflet-local-two-args", rule(vec![head(pp, vec![ev(0), ev(1)])], vec![call(9, vec![mi(0)]), call(9, vec![mi(1)])])));
     for (mac, n1, n2, n3) in [(0usize, "disj-calls-then-call", "disj-calls-then-call-short-first", "call-then-disj-calls"), (8, "disj-calls-then-call-g", "disj-calls-then-call-short-first-g", "call-then-disj-calls-g")] {
         let m = |x: Var, y: Var| call(mac, vec![mi(x), mi(y)]);
         rules.push((n1, rule(vec![head(pp, vec![ev(0), ev(3)])], vec![BodyItem::Disj(vec![vec![m(0, 1), m(1, 2)], vec![m(0, 2)]]), m(2, 3)])));
@@ -967,7 +971,7 @@ pub fn f_macro(thorough: bool) -> Vec<Unit> {
 }
 
 // ------------------------------------------------------------------------------------------ F-pack
-fn has_consts(p: &Prog) -> bool { let txt = crate::print::Printer::new(p).program_text(); txt.contains("% ") || txt.contains("(0") || txt.contains(" 0)") || txt.contains("(1") || txt.contains(" 1)") || txt.contains("vfn::") || txt.contains(" as i32") || txt.contains("agg ") || txt.contains("for ") || txt.contains("let ") }
+fn has_consts(p: &Prog) -> bool { let txt = crate::print::Printer::new(p).program_text(); txt.contains("% ") || txt.contains("(0") || txt.contains(" 0)") || txt.contains("(1") || txt.contains(" 1)") || txt.contains("vfn::") || txt.contains(" as i32") || txt.contains("agg ") || txt.contains("for ") || txt.contains("let ") || txt.contains(" < ") }
 
 /// packaging variants of a core set of programs
 pub fn f_pack(thorough: bool) -> Vec<Unit> {
@@ -996,6 +1000,8 @@ pub fn f_pack(thorough: bool) -> Vec<Unit> {
         }
         let mut v = base.clone(); v.flags.push("init-tls".into()); v.label = "initialised-relations".into(); vs.push(v);
         let mut v = base.clone(); v.flags.push("init-tls".into()); v.flags.push("redecl".into()); v.label = "redeclared-relations".into(); vs.push(v);
+        // first declaration with an initialiser, the later one without: the relation starts empty
+        let mut v = base.clone(); v.flags.push("redecl".into()); v.label = "redeclared-without-initialiser".into(); vs.push(v);
         for (attrs, label) in [(vec!["#![measure_rule_times]"], "measure_rule_times"), (vec!["#![generate_run_timeout]"], "generate_run_timeout"), (vec!["#![measure_rule_times]", "#![generate_run_timeout]"], "both-attributes")] {
             let mut v = base.clone(); v.attrs = attrs.iter().map(|s| s.to_string()).collect(); v.label = label.into(); vs.push(v);
         }
@@ -1035,12 +1041,38 @@ fn only_var_atoms(r: &Rule) -> bool { r.body.iter().all(|b| matches!(b, BodyItem
 pub fn f_perm(thorough: bool) -> Vec<Unit> {
     let mut out = vec![];
     for (i, u) in f_scc(thorough).into_iter().enumerate() { if i % (if thorough { 4 } else { 12 }) == 0 || u.tag == "scc-multihead" { out.push(u); } }
-    for (i, u) in f_shape(false).into_iter().enumerate() { if i % (if thorough { 40 } else { 160 }) == 0 { out.push(u); } }
+    let mut nfront = 0usize;
+    for (i, u) in f_shape(false).into_iter().enumerate() {
+        // (a binder in front of two clauses is independent of them: every 6th such unit on top of the regular cut)
+        // (the discriminating ones: the binder does not cover the domain and its variable is used by the second clause only)
+        let front2 = u.tag == "shape+front-binder" && u.prog.rules.last().map_or(false, |r| r.body.len() == 3 && {
+            let bv: Option<Var> = match &r.body[0] { BodyItem::Gen(Gen::Two(v, _, _)) | BodyItem::Cond(Cond::Let(v, _)) => Some(*v), _ => None };
+            let uses = |b: &BodyItem, w: Var| matches!(b, BodyItem::Atom(a) if a.args.iter().any(|x| matches!(x, Arg::Var(y) if *y == w)));
+            bv.map_or(false, |w| !uses(&r.body[1], w) && uses(&r.body[2], w))
+        });
+        if front2 { nfront += 1; }
+        if i % (if thorough { 16 } else { 64 }) == 0 || (front2 && nfront % (if thorough { 1 } else { 3 }) == 0) { out.push(u); }
+    }
     for u in out.iter_mut() {
         u.variants.truncate(1);
         let base = u.variants[0].clone();
         let p = base.prog.clone();
         let mut vs = vec![base.clone()];
+        // a generator / let over constants in front of the clauses does not depend on them: every later position
+        for (ri, r) in p.rules.iter().enumerate() {
+            let indep = match r.body.first() { Some(BodyItem::Gen(Gen::Range(_))) => true, Some(BodyItem::Gen(Gen::Two(_, a, b))) => matches!((a, b), (Expr::Const(_), Expr::Const(_))), Some(BodyItem::Cond(Cond::Let(_, Expr::Const(_)))) => true, _ => false };
+            if indep && r.body.len() >= 2 && r.body[1..].iter().all(|b| matches!(b, BodyItem::Atom(a) if a.conds.is_empty())) {
+                let bv: Var = match &r.body[0] { BodyItem::Gen(Gen::Range(v)) | BodyItem::Gen(Gen::Two(v, _, _)) | BodyItem::Cond(Cond::Let(v, _)) => *v, _ => unreachable!() };
+                let mentions = |b: &BodyItem| matches!(b, BodyItem::Atom(a) if a.args.iter().any(|x| matches!(x, Arg::Var(w) if *w == bv)));
+                for pos in 1..r.body.len() {
+                    // (only past clauses that do not mention the variable it binds)
+                    if r.body[1..=pos].iter().any(|b| mentions(b)) { break; }
+                    let mut body = r.body[1..].to_vec();
+                    body.insert(pos, r.body[0].clone());
+                    let mut v = base.clone(); v.prog.rules[ri].body = body; v.label = format!("rule{}-binder-moved-to-{}", ri, pos); vs.push(v);
+                }
+            }
+        }
         let nr = p.rules.len();
         if nr <= 4 { for (k, pm) in permutations(nr).into_iter().enumerate().skip(1) {
             let mut v = base.clone(); v.prog.rules = pm.iter().map(|&i| p.rules[i].clone()).collect(); v.label = format!("rules-permuted#{}", k); vs.push(v);
